@@ -26,6 +26,7 @@ UNITS = ["é", "€", "😀", " ", "%2f", "%2F", "%", "/", "+", "a", "%C3%A9", "
 QUOTERS = ["QUOTER", "REQUOTER", "PATH_QUOTER", "PATH_REQUOTER", "QUERY_QUOTER", "QUERY_REQUOTER", "QUERY_PART_QUOTER",
            "FRAGMENT_QUOTER", "FRAGMENT_REQUOTER"]
 UNQUOTERS = ["UNQUOTER", "PATH_UNQUOTER", "PATH_SAFE_UNQUOTER", "QS_UNQUOTER"]
+UNDECODABLE = ["%FF", "%C3x", "%C3", "%E2%82z", "%80", "%zz", "%", "%F0%9F", "%ED%A0%80", "%C0%AF"]
 UNQ_ENUM_CAP = 160
 _battery_ref_cache = {}
 
@@ -133,6 +134,9 @@ def gen_case(rng, cfg):
         quoted = quoter_fn(qn)(W.materialise(spec, []))
         if rng.random() < 0.3:
             quoted = quoted.replace("%", "%%", 1) + "%" + "%C3"
+        if rng.random() < 0.4:
+            # leading / embedded escapes that cannot be decoded as UTF-8 and are copied through unchanged
+            quoted = rng.choice(UNDECODABLE) + quoted + rng.choice(UNDECODABLE + [""])
         return {"shape": "qcall:" + un, "m": L // BUF, "d": None, "setup": [], "target": {"op": "qcall", "args": [un, quoted]}}
     # URL-level operations
     L, m, d = target_len(rng, min(big, 3))
@@ -170,7 +174,7 @@ def gen_case(rng, cfg):
         comp = sh[6:]
         if comp == "query":
             spec, exact = T("QUERY_PART_QUOTER")
-            kw = {"scheme": "http", "host": "h", "query": {"$": "dict", "v": [["k", spec], ["j", "1"]]}}
+            kw = {"scheme": "http", "host": "h", "query": {"$": rng.choice(["dict", "md", "mdp", "cimd", "userdict", "pairs"]), "v": [["k", spec], ["j", "1"]]}}
         else:
             qn = {"path": "PATH_QUOTER", "query_string": "QUERY_QUOTER", "fragment": "FRAGMENT_QUOTER", "user": "QUOTER"}[comp]
             spec, exact = T(qn)
@@ -188,10 +192,12 @@ def gen_case(rng, cfg):
         Ls = rng.choice([60, 300, 1200])
         spec, _ = make_text(rng, qn, Ls)
         quoted = quoter_fn(qn)(W.materialise(spec, []))
+        if rng.random() < 0.4:
+            quoted = rng.choice(UNDECODABLE[:6]) + quoted
         if comp == "path":
             s = "http://h/" + quoted.replace("/", "%2F")
         elif comp == "query":
-            s = "http://h/p?k=" + quoted
+            s = "http://h/p?" + (quoted if rng.random() < 0.3 else "k=" + quoted)
         elif comp == "fragment":
             s = "http://h/p#" + quoted
         else:
@@ -208,7 +214,7 @@ def gen_case(rng, cfg):
             spec["v"] = [[u, n] for u, n in spec["v"] if u != "/"]
             if sh == "with_suffix":
                 spec["pre"] = "."
-        d_arg = {"$": "dict", "v": [["k", spec]]}
+        d_arg = {"$": rng.choice(["dict", "dict", "md", "mdp", "cimd", "userdict", "odict", "mproxy"]), "v": [["k", spec]]}
         target = {
             "with_path": {"op": "with_path", "on": 0, "args": [spec], "kwargs": {}},
             "with_query_str": {"op": "with_query", "on": 0, "args": [spec]},
